@@ -264,7 +264,7 @@ def g_sortheader(rng, ragged):
 def g_convert(rng, ragged):
     t = _table(rng, ragged, dup=True)
     hdr = t[0]
-    mode = rng.choice(['one', 'several', 'dict', 'translate', 'index', 'where', 'passrow', 'method', 'all', 'replace', 'replaceall', 'update', 'format',
+    mode = rng.choice(['one', 'several', 'dict', 'translate', 'index', 'where', 'passrow', 'method', 'methods', 'all', 'replace', 'replaceall', 'update', 'format',
                        'interpolate', 'listspec', 'formatall', 'interpolateall', 'all', 'replaceall', 'convertnumbers'])
     c = {'table': t, 'mode': mode}
     if mode == 'convertnumbers':
@@ -277,8 +277,12 @@ def g_convert(rng, ragged):
         c['field'] = _spec(rng, hdr, allow_dup=False)
     elif mode == 'index':
         c['field'] = rng.randrange(len(hdr))
-    elif mode == 'dict':
+    elif mode in ('dict', 'methods'):
         c['fields'] = list(dict.fromkeys(_spec(rng, hdr, allow_dup=False)))
+    if mode == 'methods':
+        # several fields, each with its own method-name converter (a bare name, a name with arguments as tuple or list)
+        for r in t[1:]:
+            r[:] = [rng.choice(TEXT) for _ in r]
     if mode == 'method':
         # method-name converters need string cells in that column
         fi = resolve(hdr, c['field'])[0]
@@ -343,7 +347,7 @@ RULE = ('cases = (transform form, table, arguments); %d forms covering cut, cuto
         'namedtuples / columns accessors; seeded random tables of 0-5 rows x 1-4 fields, ragged rows (40 %% of cases where the form tolerates them), '
         'duplicate field names where resolution is by the index/name rule, field selection by name / index / mixed, negative and out-of-range '
         'insertion indices. Non-trivial: >= 2 data rows. Distinct = SHA-1 of the case.' % len(FORMS))
-REQUIRED = ['views-read-twice', 'field-names-given-as-str-subclass-instances', 'views-re-read-after-an-in-place-edit-of-the-source', 'marker-equal-but-not-identical'] + ['form:' + f for f in FORMS] + ['ragged-judged', 'duplicate-names-judged', 'frame-condition-used', 'exact-comparison-used',
+REQUIRED = ['views-read-twice', 'convert:several-method-name-converters-in-one-call', 'field-names-given-as-str-subclass-instances', 'views-re-read-after-an-in-place-edit-of-the-source', 'marker-equal-but-not-identical'] + ['form:' + f for f in FORMS] + ['ragged-judged', 'duplicate-names-judged', 'frame-condition-used', 'exact-comparison-used',
                                            'negative-or-out-of-range-insertion-index', 'cat:repeated-field-name-in-a-later-table',
                                            'fieldmap:suffix-notation-two-views']
 
@@ -703,6 +707,16 @@ def j_convert(case, ctx, table, hdr, rows, tabs, frame):
     elif mode == 'translate':
         targets = {fidx(case['field']): (lambda v: _translate({a: b}, v))}
         call = lambda: petl.convert(table, case['field'], {a: b})  # noqa: E731
+    elif mode == 'methods':
+        forms = [('upper', lambda v: v.upper()), (('replace', 'a', 'Z'), lambda v: v.replace('a', 'Z')), (['ljust', 4, '.'], lambda v: v.ljust(4, '.')),
+                 ('title', lambda v: v.title())]
+        spec = OrderedDict()
+        for j, x in enumerate(case['fields']):
+            spec[x] = forms[j % 4][0]
+            targets[fidx(x)] = forms[j % 4][1]
+        if len(spec) >= 2:
+            ctx.seen('convert:several-method-name-converters-in-one-call')
+        call = lambda: petl.convert(table, spec)  # noqa: E731
     elif mode == 'method':
         targets = {fidx(case['field']): (lambda v: v.replace('a', 'Z'))}
         call = lambda: petl.convert(table, case['field'], 'replace', 'a', 'Z')  # noqa: E731
